@@ -224,6 +224,7 @@ func (l *Log) Snapshot() []Event {
 type Instance struct {
 	// GoneClient, while set, makes every request arrive with an already cancelled context.
 	GoneClient atomic.Bool
+	deafDelay  atomic.Int64
 
 	Name string
 	Opts Options
@@ -360,6 +361,10 @@ func (in *Instance) Stop() {
 	}
 	in.stopped = true
 	in.App.Stop(context.Background())
+	if d := time.Duration(in.deafDelay.Load()); d > 0 {
+		// deliveries that ignore cancellation may still be sleeping; let them run out before the bubble ends
+		time.Sleep(d + time.Second)
+	}
 	if in.Opts.Yield != nil {
 		dispatch.VerifSetYield(in.VI.Alerts, nil)
 		// aggregation-group goroutines are not awaited by Dispatcher.Stop; let those that sit in a
@@ -457,7 +462,10 @@ func (n *recNotifier) Notify(ctx context.Context, alerts ...*alert.Alert) (bool,
 	// was already due) would end at the SAME instant and their notification-log writes would carry equal
 	// timestamps - a tie that the log resolves in favour of the first write and that a real clock cannot
 	// produce.
-	time.Sleep(time.Microsecond)
+	select {
+	case <-time.After(time.Microsecond):
+	case <-ctx.Done(): // (a bubble's clock stops once its main goroutine has returned: never block past a Stop)
+	}
 	var retry bool
 	var err error
 	switch out.Kind {
@@ -467,6 +475,7 @@ func (n *recNotifier) Notify(ctx context.Context, alerts ...*alert.Alert) (bool,
 		retry, err = true, ctx.Err()
 	default:
 		if out.Delay > 0 && out.IgnoreCancel {
+			n.in.deafDelay.Store(int64(out.Delay))
 			time.Sleep(out.Delay)
 		} else if out.Delay > 0 {
 			select {
